@@ -358,7 +358,7 @@ struct Leaf {
   template <template <class...> class V> using error_types = V<std::exception_ptr>;
   static constexpr bool sends_done = SendsDone;
   static constexpr unifex::blocking_kind blocking = static_cast<unifex::_block::_enum>(BlockingKind);
-  static constexpr bool is_always_scheduler_affine = false;
+  static constexpr bool is_always_scheduler_affine = BlockingKind == 0;   // an always-inline leaf completes inside start(): on the context it was started on
 
   template <class R>
   struct Op {
